@@ -884,15 +884,28 @@ class HistoryKind(Kind):
         pt = np.arange(8, dtype='uint8')
         scared.des.get_master_key(rk[0].copy(), 0, pt, scared.des.encrypt(pt, d))
 
-    def run(self, case):
+    def _before_calls(self):
         self._scrub()
-        buf = np.zeros(256, dtype='uint8')
-        views = {}
-        out = []
+
+    def run(self, case):
+        # the arguments of every call are prepared first (fresh arrays; the preparation itself may call the library), then the state
+        # of the library is normalised (scrub here, module reload in the fresh-process kind), then the calls are made in order
+        prepared = []
         for st in case['steps']:
             kind = CALL_KINDS[st['kind']]
             try:
-                x, extra = kind.make_input(st['case'])
+                prepared.append((kind, st) + tuple(kind.make_input(st['case'])))
+            except Exception as e:
+                prepared.append((kind, st, None, {'raised': type(e).__name__, 'msg': str(e)[:160]}))
+        self._before_calls()
+        buf = np.zeros(256, dtype='uint8')
+        views = {}
+        out = []
+        for kind, st, x, extra in prepared:
+            if x is None:
+                out.append(extra)
+                continue
+            try:
                 key = (st.get('off', 0),) + tuple(x.shape)
                 if key not in views:
                     views[key] = buf[key[0]: key[0] + x.size].reshape(x.shape)
@@ -940,6 +953,51 @@ class HistoryKind(Kind):
 
     def sample(self, case, obs):
         return {'case': case, 'observed': {'steps': [{k: (v[:1] if isinstance(v, list) else v) for k, v in o.items()} for o in obs.get('steps', [])]}}
+
+
+# ---------------------------------------------------------------------------------------------- first calls of a process
+
+class FreshKind(HistoryKind):
+    name = 'fresh_process'
+    shard = 6
+    rule = ('sequences of 2..4 calls made right after scared.aes.base / scared.des.base (and the packages) have been re-executed with '
+            'importlib.reload, i.e. as the FIRST calls of a process, the first call being an unusual one: des.key_schedule with '
+            'interrupt_after_round 0 / 3 / 14, get_master_key from round 0, aes.key_expansion backward from the last window, '
+            'inv_key_schedule first, AES-192 / AES-256 before AES-128; no scrub call; every result compared with the spec; '
+            'non-trivial = at least two calls')
+
+    def _before_calls(self):
+        import importlib
+        import scared
+        import scared.aes.base
+        import scared.des.base
+        for m in (scared.aes.base, scared.aes, scared.des.base, scared.des):
+            try:
+                importlib.reload(m)
+            except Exception:      # keep going with the module as it is
+                pass
+
+    def gen(self, rng, tier):
+        H = lambda *steps: {'steps': list(steps)}  # noqa: E731
+        for rep in range(1 if tier == 'quick' else 4):
+            d = [rand_hex(rng, 8) for _ in range(3)]
+            a16, a24, a32 = rand_hex(rng, 16), rand_hex(rng, 24), rand_hex(rng, 32)
+            dense = dense_hex(rng, 8)
+            yield H(self._dk([d[0]], True, 0), self._dk([d[0]], True, None))
+            yield H(self._dk(d, False, 3), self._dk(d, False, None), self._dk([d[1]], True, 15))
+            yield H(self._dk([d[2]], True, 14), self._dk([d[2]], True, None), self._dk([d[2]], True, 7))
+            yield H(self._mk(rng, dense, 0), self._dk([dense], True, None), self._dk([dense], True, 5))
+            yield H(self._dk(d[:2], False, 0), self._mk(rng, dense, 5), self._dk(d[:2], False, None))
+            yield H(self._dk([d[0]], True, rng.randint(0, 14)), self._mk(rng, dense, rng.randint(0, 15)), self._dk([d[0]], True, 15))
+            yield H(self._ke([a16], True, 40, 0), self._ks([a16], True), self._ke([a16], True, 0, None))
+            yield H(self._ke([a32], True, 52, 3), self._ke([a24], True, 46, 50), self._ke([a16], True, 7, None), self._ks([a16], True))
+            yield H(self._inv([a16], True, 10), self._ks([a16], True), self._ke([a16], True, 3, 44))
+            yield H(self._inv([a16, rand_hex(rng, 16)], False, 1), self._inv([a16], True, None), self._ks([a32], True))
+            yield H(self._ks([a24], True), self._ks([a32], True), self._ks([a16], True), self._ke([a16], True, 0, 44))
+            yield H(self._ks([a32, rand_hex(rng, 32)], False), self._inv([a16], True, 4), self._ks([a16], True))
+
+    def tags(self, case, obs):
+        return ['fresh_process', 'fresh_first_' + case['steps'][0]['kind']]
 
 
 # ---------------------------------------------------------------------------------------------- memory layout / representation
@@ -1177,7 +1235,7 @@ class CountsKind(Kind):
 
 
 KINDS = [AesExpansionKind(), AesScheduleKind(), AesInvKind(), DesScheduleKind(), DesMasterKeyKind(), DesCandidatesKind(), HistoryKind(),
-         LayoutKind(), CountsKind()]
+         FreshKind(), LayoutKind(), CountsKind()]
 
 
 def coverage_extra():
